@@ -359,6 +359,7 @@ func resetRuntime() {
 	ExploreSchedules = false
 	resetStubs()
 	resetVFS()
+	resetRace()
 }
 
 type ssaFunction = ssa.Function
